@@ -61,7 +61,8 @@ type ctx struct {
 	soloRuns       int64
 	reported       map[string]bool
 	nontrivSeq     int64
-	budgetSec      float64   // dispatch budget on a machine of nominal speed
+	budgetSec      float64 // dispatch budget on a machine of nominal speed
+	maxStretch     float64
 	stretch        float64   // measured: nominal throughput / observed throughput of the batch children (1..12)
 	firstDispatch  time.Time // the budget runs from the first dispatch
 	rates          []float64 // evaluations per second of the finished enum batches
@@ -106,8 +107,8 @@ func (c *ctx) observeRate(evals int64, wall float64) {
 	if st < 1 {
 		st = 1
 	}
-	if st > 12 {
-		st = 12
+	if st > c.maxStretch {
+		st = c.maxStretch
 	}
 	c.stretch = st
 }
@@ -532,6 +533,15 @@ func (c *ctx) enumFamily(wg *sync.WaitGroup, hdr *enumHeader, stems []stem) {
 	// time budget then still covers every language)
 	rnd := rand.New(rand.NewSource(r.Seed*17 + 3))
 	rnd.Shuffle(len(stems), func(i, j int) { stems[i], stems[j] = stems[j], stems[i] })
+	// framed strings and the small languages (they reach the deeper grammar states) are dispatched first
+	prio := func(st stem) int {
+		e := hdr.Plan[st.P-1]
+		if e.Lang == "cfg" || e.Lang == "smap" || e.Lang == "json" || !(len(e.Frames) == 1 && e.Frames[0] == 1) {
+			return 0
+		}
+		return 1
+	}
+	sort.SliceStable(stems, func(i, j int) bool { return prio(stems[i]) < prio(stems[j]) })
 	per := int64(r.Pick(6000, 60000))
 	var cur []stem
 	var curN int64
@@ -854,7 +864,7 @@ func Run(r *core.Run) {
 		c.fastTmp = d
 		defer os.RemoveAll(d)
 	}
-	c.budgetSec, c.stretch = float64(r.Pick(80, 17*60)), 1
+	c.budgetSec, c.stretch, c.maxStretch = float64(r.Pick(80, 17*60)), 1, float64(r.Pick(12, 2))
 	if b := os.Getenv("C16_BUDGET_SEC"); b != "" {
 		fmt.Sscan(b, &c.budgetSec)
 	}
